@@ -66,18 +66,28 @@ def gate1(ctx, rule="GATE-1"):
 
 GATE2 = {
     "Insert": [("NotFound", r"discr\(std::collections::BTreeMap::<K, V, A>::get\(&\*p4,&p1\.table_name\)\)", ("==", 0), "unknown table"),
-               ("InvalidInput", r"Vec::<T, A>::len\(.*\) Ne ", True, "wrong number of values"),
+               ("InvalidInput", [(r"Vec::<T, A>::len\(.*\) Ne ", True), (r"Vec::<T, A>::len\(.*\) Eq ", False), (r" Ne .*Vec::<T, A>::len\(", True), (r" Eq .*Vec::<T, A>::len\(", False)], None, "wrong number of values"),
                ("InvalidInput", r"Column::is_valid_value", False, "invalid value"),
                ("InvalidData", r"BTreeMap::<K, V, A>::contains_key\(", True, "stored table already malformed (duplicate key on disk)"),
                ("AlreadyExists", r"BTreeMap::<K, V, A>::contains_key\(", True, "duplicate key (existing row)"),
                ("InvalidInput", r"HashSet::<T, S, A>::contains\(", True, "duplicate key (within the batch)"),
-               ("InvalidInput", r" Gt c:65536\)", True, "row limit (C20)")],
+               ("InvalidInput", "exceeds:65536", None, "row limit (C20)")],
     "Update": [("NotFound", r"discr\(std::collections::BTreeMap::<K, V, A>::get\(&\*p4,&p1\.table_name\)\)", ("==", 0), "unknown table"),
-               ("InvalidInput", r"Table::has_column\(", False, "unknown column (assignment)"),
+               ("InvalidInput", [(r"Table::has_column\(", False), (r"^discr\(.*Table::get_column\(", ("==", 0)), (r"^discr\(.*Table::get_column\(", ("notin", (1,))),
+                                 (r"^discr\(.*Table::index_for_column_name\(", ("==", 0)), (r"^discr\(.*Table::index_for_column_name\(", ("notin", (1,)))], None, "unknown column (assignment)"),
                ("AlreadyExists", r"HashSet::<T, S, A>::contains\(", True, "duplicate key after assigning key columns"),
                ("InvalidInput", r"Column::is_valid_value", False, "invalid value"),
                ("InvalidInput", r"Table::has_column\(", False, "unknown column (condition)")],
 }
+
+
+def _gate_match(pat, truth, fact):
+    """does the innermost guard `fact` = (expr, truth, block) state the documented test? pat: regex with `truth`, a list of (regex, truth) spellings, or 'exceeds:N'"""
+    from ..lib import exceeds_facts
+    if isinstance(pat, str) and pat.startswith("exceeds:"):
+        return any(n == int(pat[8:]) for (x, n, g) in exceeds_facts([fact]))
+    alts = pat if isinstance(pat, list) else [(pat, truth)]
+    return any(re.search(p_, fact[0]) and fact[1] == t_ for (p_, t_) in alts)
 
 
 def gate2(ctx, rule="GATE-2"):
@@ -88,20 +98,27 @@ def gate2(ctx, rule="GATE-2"):
         f = prog.fn(Q + name + "::exec")
         S = Sym(prog, f)
         used = [0] * len(table)
+        sites = []
         for (b, t, kind, mac) in error_sites(prog, f):
             facts = S.bool_facts_at(b)
-            hit = None
-            cands = [i for i, (k, pat, truth, what) in enumerate(table)
-                     if k == kind and facts and re.search(pat, facts[-1][0]) and facts[-1][1] == truth]
-            if cands:
-                free = [i for i in cands if used[i] == 0]
-                hit = (free or cands)[0]
+            cands = [i for i, (k, pat, truth, what) in enumerate(table) if k == kind and facts and _gate_match(pat, truth, facts[-1])]
+            sites.append((b, t, kind, facts, cands))
+        # assign sites to documented rejections so that as many distinct rejections as possible are covered (a site may match several spellings)
+        order = sorted(range(len(sites)), key=lambda i: len(sites[i][4]))
+        assign = {}
+        for i in order:
+            free = [c for c in sites[i][4] if used[c] == 0]
+            if sites[i][4]:
+                hit = (free or sites[i][4])[0]
+                assign[i] = hit
+                used[hit] += 1
+        for i, (b, t, kind, facts, cands) in enumerate(sites):
+            hit = assign.get(i)
             if hit is None:
                 ctx.violation(rule, "%s::exec: unclassified %s error" % (name, kind), "an %s error guarded by %s is not one of the documented rejections of %s" % (
                     kind, [(e[:60], tr) for e, tr, g in facts[-2:]], name.lower()), f.loc(t["sp"]), fn=f.name, key="%s|%s|unclassified|%s" % (rule, name, kind))
             else:
-                used[hit] += 1
-                ctx.ok(rule, "%s::exec: %s" % (name, table[hit][3]), "%s, guarded by %s" % (kind, table[hit][1][:50]), f.loc(t["sp"]))
+                ctx.ok(rule, "%s::exec: %s" % (name, table[hit][3]), "%s, guarded by %s" % (kind, str(table[hit][1])[:50]), f.loc(t["sp"]))
         for i, (k, pat, truth, what) in enumerate(table):
             if used[i] == 0:
                 ctx.violation(rule, "%s::exec: %s" % (name, what), "the documented rejection `%s` (%s) is missing from %s::exec" % (what, k, name), f.loc(), fn=f.name,
@@ -204,7 +221,12 @@ def pairs(ctx):
                 if s["lhs"]["l"] == 0 and s["rhs"]["rv"] == "use" and s["rhs"]["ops"][0].get("k") == "const":
                     res[s["rhs"]["ops"][0]["int"]] = bl["id"]
         hdr = [h for h, bl in loops.items() if rm[0] in bl]
-        ok = in_loop and 0 in res and 1 in res and hdr and hdr[0] in dom[res[0]] and rm[0] not in cfg.backward_reachable(c, {res[1]})
+        nl = not_result_local(c)
+        if nl is not None and not res:
+            # `retain(|row| { if should_delete { release cells } !should_delete })`: the release loop runs exactly under the flag whose negation is returned
+            ok = in_loop and any(e in ("_%d" % nl, S.local(nl)) and tr is True for (e, tr, g) in S.bool_facts_at(rm[0]))
+        else:
+            ok = in_loop and 0 in res and 1 in res and hdr and hdr[0] in dom[res[0]] and rm[0] not in cfg.backward_reachable(c, {res[1]})
         # the loop iterates the closure's own row argument
         ok = ok and any("p2" in x for x in it)
     ctx.check(ok, R, "Delete::exec releases the strings of deleted rows", "", "Delete::exec's retain closure does not release (ValueRef::remove over all cells) exactly the rows it drops",
@@ -458,3 +480,13 @@ def cap_panic_guard(ctx, rule="CAP-GUARD"):
                       "before the pool has been searched for an existing or free entry" if not exhausted else "without the length test against the reference-width limit (lower bound %s)" % lo),
                   s.loc, fn=f.name, key="%s|%s" % (rule, "early" if not exhausted else "nolimit"))
     ctx.floor(rule, "capacity panics in incref", n, 1)
+
+
+def not_result_local(c):
+    """if the closure's only result is `!L` for a local L, return L"""
+    outs = [s for bl in c.blocks if not bl["cleanup"] for s in bl["stmts"] if s["lhs"]["l"] == 0 and not s["lhs"]["p"]]
+    if len(outs) == 1 and outs[0]["rhs"]["rv"] == "un" and outs[0]["rhs"]["op"] == "Not":
+        o = outs[0]["rhs"]["ops"][0]
+        if o.get("pl") and not o["pl"]["p"]:
+            return o["pl"]["l"]
+    return None
